@@ -14,6 +14,8 @@ pub mod c07;
 pub mod c08;
 pub mod c10;
 pub mod c11;
+pub mod c12;
+pub mod c13;
 pub mod c19;
 
 pub fn run(prop: &str, tier: &str) -> ! {
@@ -27,6 +29,8 @@ pub fn run(prop: &str, tier: &str) -> ! {
 		"C08" => c08::run(tier),
 		"C10" => c10::run(tier),
 		"C11" => c11::run(tier),
+		"C12" => c12::run(tier),
+		"C13" => c13::run(tier),
 		"C19" => c19::run(tier),
 		_ => machinery_error(&format!("unknown property {}", prop)),
 	}
